@@ -280,7 +280,7 @@ def checkRouting (cfg : WireCfg) (r : Request) (g : List Reply) : Verdict :=
         if kind == "script" && ((r.method.splitOn ".").getLast?.getD "").startsWith "Nx" then
           if errorIs g sMethodNotFound "method" r.method then none else some "unknown-method-not-MethodNotFound"
         else if kind == "gen" &&
-            !(["Echo", "Stream", "Fail", "Opt", "NoArgs"].contains ((r.method.splitOn ".").getLast?.getD "")) then
+            !(["Echo", "Stream", "Fail", "Opt", "NoArgs", "Ping"].contains ((r.method.splitOn ".").getLast?.getD "")) then
           if errorIs g sMethodNotFound "method" r.method then none else some "unknown-generated-method-not-MethodNotFound"
         else none
 
